@@ -172,6 +172,70 @@ Definition zlib_inverse : Prop := forall x, inflate (deflate x) = Some x.
 Definition zlib_fits : Prop :=
   forall x, (Z.of_N (lenN x) <= 2097152)%Z -> (Z.of_N (lenN (deflate x)) < 2147483648 - 5)%Z.
 
+(* data length 0 inside compressed mode: accepted whatever the size (no declaration to check) *)
+Lemma roundtrip_comp_below thr pool pool' old id data rest :
+  (0 <= thr)%Z -> in_sw 32 id -> (Z.of_N (lenN data) <? thr)%Z = true ->
+  (1 + Z.of_N (len32 id) + Z.of_N (lenN data) < 2147483648)%Z ->
+  run_flat (unpack_comp inflate thr pool' old) (pack_comp deflate pool thr id data ++ rest)
+  = FOk (received old (id, data)) rest.
+Proof.
+  intros Hthr Hid E Hn.
+  pose proof (len32_bounds id) as HB.
+  unfold pack_comp, buf_reset. rewrite E. cbv zeta. rewrite app_nil_l.
+  rewrite len32_0. rewrite vi_id by lia. rewrite <- !app_assoc.
+  unfold unpack_comp.
+  rewrite run_read32_bind by (apply in_sw32_iff; lia).
+  cbv beta iota.
+  assert (H0 : in_sw 32 0%Z) by (apply in_sw32_iff; lia).
+  rewrite (app_assoc (write32 id)), (app_assoc (write32 0%Z)).
+  rewrite run_readfull_exact.
+  2:{ rewrite !lenN_app, !write32_len by assumption. rewrite len32_0. lia. }
+  unfold buf_reset. rewrite app_nil_l.
+  rewrite sub_read32 by exact H0. cbv beta iota.
+  change (negb (0 =? 0)%Z) with false. cbv iota.
+  rewrite sub_read32 by exact Hid. cbv beta iota.
+  rewrite len32_0.
+  replace (Z.of_N 1 + Z.of_N (len32 id) + Z.of_N (lenN data) - Z.of_N 1 - Z.of_N (len32 id))%Z
+    with (Z.of_N (lenN data)) by lia.
+  rewrite vi_id by lia. rewrite read_data_ok. reflexivity.
+Qed.
+
+Lemma roundtrip_comp_zlib thr pool pool' old id data rest :
+  inflate (deflate (write32 id ++ data)) = Some (write32 id ++ data) ->
+  (Z.of_N (lenN (deflate (write32 id ++ data))) < 2147483648 - 5)%Z ->
+  (0 <= thr)%Z -> in_sw 32 id -> (Z.of_N (lenN data) <? thr)%Z = false ->
+  (Z.of_N (len32 id) + Z.of_N (lenN data) <= 2097152)%Z ->
+  run_flat (unpack_comp inflate thr pool' old) (pack_comp deflate pool thr id data ++ rest)
+  = FOk (received old (id, data)) rest.
+Proof.
+  intros Hinv Hz Hthr Hid E Hn.
+  pose proof (len32_bounds id) as HB.
+  rewrite pack_comp_zlib by exact E. unfold hdr_zlib. cbv zeta.
+  set (z := deflate (write32 id ++ data)) in *.
+  rewrite (vi_id (Z.of_N (len32 id) + Z.of_N (lenN data))) by lia.
+  set (DL := (Z.of_N (len32 id) + Z.of_N (lenN data))%Z).
+  assert (HDL : in_sw 32 DL) by (apply in_sw32_iff; unfold DL; lia).
+  pose proof (len32_bounds DL) as HBD.
+  rewrite vi_id by lia. rewrite <- !app_assoc.
+  unfold unpack_comp.
+  rewrite run_read32_bind by (apply in_sw32_iff; lia).
+  cbv beta iota.
+  rewrite (app_assoc (write32 DL)).
+  rewrite run_readfull_exact.
+  2:{ rewrite lenN_app, write32_len by assumption. lia. }
+  unfold buf_reset. rewrite app_nil_l.
+  rewrite sub_read32 by exact HDL. cbv beta iota.
+  assert (E0 : (DL =? 0)%Z = false) by (unfold DL; lia). rewrite E0. cbn [negb].
+  assert (E1 : (DL <? thr)%Z = false) by (unfold DL; lia). rewrite E1.
+  rewrite max_data_length.
+  assert (E2 : (2097152 <? DL)%Z = false) by (unfold DL; lia). rewrite E2.
+  rewrite Hinv.
+  rewrite sub_read32 by exact Hid. cbv beta iota.
+  assert (E3 : (DL <? Z.of_N (len32 id))%Z = false) by (unfold DL; lia). rewrite E3.
+  replace (DL - Z.of_N (len32 id))%Z with (Z.of_N (lenN data)) by (unfold DL; lia).
+  rewrite vi_id by lia. rewrite read_data_ok. reflexivity.
+Qed.
+
 Lemma roundtrip_comp thr pool pool' old id data rest :
   zlib_inverse -> zlib_fits ->
   (0 <= thr)%Z -> in_sw 32 id -> (Z.of_N (len32 id) + Z.of_N (lenN data) <= 2097152)%Z ->
@@ -179,52 +243,10 @@ Lemma roundtrip_comp thr pool pool' old id data rest :
   = FOk (received old (id, data)) rest.
 Proof.
   intros Hinv Hfit Hthr Hid Hn.
-  pose proof (len32_bounds id) as HB.
   destruct (Z.of_N (lenN data) <? thr)%Z eqn:E.
-  - unfold pack_comp, buf_reset. rewrite E. cbv zeta. rewrite app_nil_l.
-    rewrite len32_0. rewrite vi_id by lia. rewrite <- !app_assoc.
-    unfold unpack_comp.
-    rewrite run_read32_bind by (apply in_sw32_iff; lia).
-    cbv beta iota.
-    assert (H0 : in_sw 32 0%Z) by (apply in_sw32_iff; lia).
-    rewrite (app_assoc (write32 id)), (app_assoc (write32 0%Z)).
-    rewrite run_readfull_exact.
-    2:{ rewrite !lenN_app, !write32_len by assumption. rewrite len32_0. lia. }
-    unfold buf_reset. rewrite app_nil_l.
-    rewrite sub_read32 by exact H0. cbv beta iota.
-    change (negb (0 =? 0)%Z) with false. cbv iota.
-    rewrite sub_read32 by exact Hid. cbv beta iota.
-    rewrite len32_0.
-    replace (Z.of_N 1 + Z.of_N (len32 id) + Z.of_N (lenN data) - Z.of_N 1 - Z.of_N (len32 id))%Z
-      with (Z.of_N (lenN data)) by lia.
-    rewrite vi_id by lia. rewrite read_data_ok. reflexivity.
-  - rewrite pack_comp_zlib by exact E. unfold hdr_zlib. cbv zeta.
-    set (z := deflate (write32 id ++ data)).
-    assert (Hx : (Z.of_N (lenN (write32 id ++ data)) <= 2097152)%Z).
-    { rewrite lenN_app, write32_len by exact Hid. lia. }
-    pose proof (Hfit _ Hx) as Hz. fold z in Hz.
-    rewrite (vi_id (Z.of_N (len32 id) + Z.of_N (lenN data))) by lia.
-    set (DL := (Z.of_N (len32 id) + Z.of_N (lenN data))%Z).
-    assert (HDL : in_sw 32 DL) by (apply in_sw32_iff; unfold DL; lia).
-    pose proof (len32_bounds DL) as HBD.
-    rewrite vi_id by lia. rewrite <- !app_assoc.
-    unfold unpack_comp.
-    rewrite run_read32_bind by (apply in_sw32_iff; lia).
-    cbv beta iota.
-    rewrite (app_assoc (write32 DL)).
-    rewrite run_readfull_exact.
-    2:{ rewrite lenN_app, write32_len by assumption. lia. }
-    unfold buf_reset. rewrite app_nil_l.
-    rewrite sub_read32 by exact HDL. cbv beta iota.
-    assert (E0 : (DL =? 0)%Z = false) by (unfold DL; lia). rewrite E0. cbn [negb].
-    assert (E1 : (DL <? thr)%Z = false) by (unfold DL; lia). rewrite E1.
-    rewrite max_data_length.
-    assert (E2 : (2097152 <? DL)%Z = false) by (unfold DL; lia). rewrite E2.
-    unfold z. rewrite Hinv.
-    rewrite sub_read32 by exact Hid. cbv beta iota.
-    assert (E3 : (DL <? Z.of_N (len32 id))%Z = false) by (unfold DL; lia). rewrite E3.
-    replace (DL - Z.of_N (len32 id))%Z with (Z.of_N (lenN data)) by (unfold DL; lia).
-    rewrite vi_id by lia. rewrite read_data_ok. reflexivity.
+  - apply roundtrip_comp_below; auto. lia.
+  - apply roundtrip_comp_zlib; auto. apply Hfit.
+    rewrite lenN_app, write32_len by exact Hid. lia.
 Qed.
 
 Theorem roundtrip thr pool pool' old p rest :
@@ -490,6 +512,56 @@ Proof.
   { rewrite lenN_app, write32_len by exact HDL. lia. }
   rewrite EL. split; [rewrite (lenN_app (write32 DL ++ body) rest); lia|].
   rewrite takeN_app_exact. rewrite read32_write32 by exact HDL. exact Hbad.
+Qed.
+
+(* ---------- what the receiver does with ANY frame Pack can emit (also outside the domain) ---------- *)
+Theorem own_frame_verdict thr pool pool' old id data rest :
+  in_sw 32 id -> (1 + Z.of_N (len32 id) + Z.of_N (lenN data) < 2147483648)%Z ->
+  inflate (deflate (write32 id ++ data)) = Some (write32 id ++ data) ->
+  (Z.of_N (lenN (deflate (write32 id ++ data))) < 2147483648 - 5)%Z ->
+  run_flat (unpack inflate thr pool' old) (pack deflate thr pool (id, data) ++ rest) =
+  if own_accepts thr id (lenN data) then FOk (received old (id, data)) rest
+  else FErr (if (0 <=? thr)%Z then eTooLarge else eLength).
+Proof.
+  intros Hid Hn Hinv Hz. pose proof (len32_bounds id) as HB.
+  unfold unpack, pack, own_accepts. rewrite max_data_length.
+  destruct (Z.leb_spec 0 thr) as [T|T].
+  - destruct (Z.of_N (lenN data) <? thr)%Z eqn:E.
+    + apply roundtrip_comp_below; auto.
+    + destruct (Z.leb_spec (Z.of_N (len32 id) + Z.of_N (lenN data)) 2097152) as [A|A].
+      * apply roundtrip_comp_zlib; auto.
+      * rewrite pack_comp_zlib by exact E. unfold hdr_zlib. cbv zeta.
+        set (z := deflate (write32 id ++ data)) in *.
+        rewrite (vi_id (Z.of_N (len32 id) + Z.of_N (lenN data))) by lia.
+        set (DL := (Z.of_N (len32 id) + Z.of_N (lenN data))%Z).
+        assert (HDL : in_sw 32 DL) by (apply in_sw32_iff; unfold DL; lia).
+        pose proof (len32_bounds DL) as HBD.
+        rewrite vi_id by lia. rewrite <- !app_assoc.
+        unfold unpack_comp.
+        rewrite run_read32_bind by (apply in_sw32_iff; lia).
+        cbv beta iota.
+        rewrite (app_assoc (write32 DL)).
+        rewrite run_readfull_exact.
+        2:{ rewrite lenN_app, write32_len by assumption. lia. }
+        unfold buf_reset. rewrite app_nil_l.
+        rewrite sub_read32 by exact HDL. cbv beta iota.
+        assert (E0 : (DL =? 0)%Z = false) by (unfold DL; lia). rewrite E0. cbn [negb].
+        assert (E1 : (DL <? thr)%Z = false) by (unfold DL; lia). rewrite E1.
+        rewrite max_data_length.
+        assert (E2 : (2097152 <? DL)%Z = true) by (unfold DL; lia). rewrite E2. reflexivity.
+  - destruct (Z.leb_spec (Z.of_N (lenN data)) 2097152) as [A|A].
+    + apply roundtrip_plain; auto.
+    + unfold pack_plain, buf_reset. cbv zeta. rewrite app_nil_l.
+      rewrite vi_id by lia. rewrite <- !app_assoc.
+      unfold unpack_plain.
+      rewrite run_read32_bind by (apply in_sw32_iff; lia).
+      cbv beta iota.
+      rewrite run_read32_bind by exact Hid.
+      cbv beta iota zeta.
+      replace (Z.of_N (len32 id) + Z.of_N (lenN data) - Z.of_N (len32 id))%Z with (Z.of_N (lenN data)) by lia.
+      rewrite max_data_length.
+      assert (E : ((Z.of_N (lenN data) <? 0)%Z || (2097152 <? Z.of_N (lenN data))%Z) = true) by lia.
+      rewrite E. reflexivity.
 Qed.
 
 (* ---------- UnPack never panics, whatever arrives (after the DataLength < len(id) guard) ---------- *)
